@@ -296,6 +296,15 @@ func runAlternatives(c *core.Case) {
 				continue
 			}
 			c.Count("accepted-strict."+a.name, 1)
+			// a reader that declares none of the fields skips all of them, whatever their spelling
+			var none struct {
+				X int64 `thrift:"32001"`
+			}
+			if sig, stk := core.Guard(func() { err = thrift.Unmarshal(p.p, append([]byte(nil), enc...), &none) }); sig != "" || err != nil {
+				c.Violation(cls+"|skipped", "rejected:"+sig, fmt.Sprintf("Unmarshal(%s) into a struct that declares none of the fields fails on the conformant encoding %x of %s: %v %s", p.name, tr(enc), show(v), err, stk), w)
+				continue
+			}
+			c.Count("skipped."+a.name, 1)
 		}
 	}
 	c.Distinct(core.Mix(core.HashString(t.String()), core.HashString(tspec.Canon(want))), len(want.Fields) > 0)
@@ -573,7 +582,7 @@ func runMessages(c *core.Case) {
 func init() {
 	core.Register(&core.Monitor{
 		Prop:    "C13",
-		Rule:    "marshal: struct types built at run time (0-70 fields, ids in seven layouts incl. gaps > 15 and ranges > 64, required/optional/enum, every supported field type incl. nested and pointer-to structs, lists, sets, maps) x 3 values x {binary strict, binary non-strict, compact}: the bytes of Marshal must be understood by a strict reader written from the two specification documents, with exactly the logical content of the value (field ids, type codes, values; sets/maps as multisets), and be byte-identical to the reference encoder when no set/map has more than one entry (same length otherwise); one Encoder taken through Reset across the three protocols must write the same bytes. A difference is classified by the construct at the first differing byte. alternatives: every conformant spelling of the same content (fields in another order; compact: long field headers, long list headers, BOOL element type 1, all at once) must be accepted by Unmarshal, and by a Decoder in strict mode, with the same value. writer-calls: sequences of 1-12 Writer calls (every method; field headers as stop / delta / absolute; list, set, map headers around the 14/15 boundary; message headers) must write the specified bytes call by call, and the Reader must return the same values and consume exactly those bytes. messages: strict and non-strict binary headers are read by both binary readers, the compact header by the compact reader.",
+		Rule:    "marshal: struct types built at run time (0-70 fields, ids in seven layouts incl. gaps > 15 and ranges > 64, required/optional/enum, every supported field type incl. nested and pointer-to structs, lists, sets, maps) x 3 values x {binary strict, binary non-strict, compact}: the bytes of Marshal must be understood by a strict reader written from the two specification documents, with exactly the logical content of the value (field ids, type codes, values; sets/maps as multisets), and be byte-identical to the reference encoder when no set/map has more than one entry (same length otherwise); one Encoder taken through Reset across the three protocols must write the same bytes. A difference is classified by the construct at the first differing byte. alternatives: every conformant spelling of the same content (fields in another order; compact: long field headers, long list headers, BOOL element type 1, all at once) must be accepted by Unmarshal, and by a Decoder in strict mode, with the same value, and skipped as a whole by a reader that declares none of the fields. writer-calls: sequences of 1-12 Writer calls (every method; field headers as stop / delta / absolute; list, set, map headers around the 14/15 boundary; message headers) must write the specified bytes call by call, and the Reader must return the same values and consume exactly those bytes. messages: strict and non-strict binary headers are read by both binary readers, the compact header by the compact reader.",
 		Trusted: []string{"harness/gen/tspec: encoders and strict parsers transcribed from thrift-binary-protocol.md and thrift-compact-protocol.md (type codes, endianness, zig-zag varints, header forms); no other Thrift implementation is available offline", "harness/gen/ttypes.TreeOf: the documented Go-to-thrift mapping (TypeOf, struct tags, zero/nil omission)"},
 		Subs: []core.Sub{
 			{Name: "marshal", N: core.Const(8000, 300000), Run: runMarshal},
